@@ -5,6 +5,7 @@ import (
 	"bytes"
 	"fmt"
 	"os"
+	"runtime"
 	"sort"
 	"strconv"
 	"strings"
@@ -282,7 +283,15 @@ func (v *cdecodeView) Exec(line string) (string, string, []string) {
 		return "bad-op", "", nil
 	}
 	in := append([]byte{}, data...) // the decoder lower-cases in place
+	var ms0, ms1 runtime.MemStats
+	hugeCount := len(data) > 6 && data[0] == '*' && bytes.IndexByte(data, '\r') > 6
+	if hugeCount {
+		runtime.ReadMemStats(&ms0)
+	}
 	res := core.VerifDecode(limit, in)
+	if hugeCount {
+		runtime.ReadMemStats(&ms1)
+	}
 	var out string
 	kind := ""
 	switch {
@@ -313,6 +322,12 @@ func (v *cdecodeView) Exec(line string) (string, string, []string) {
 	fail := func(format string, a ...interface{}) { fails = append(fails, fmt.Sprintf(format, a...)) }
 	args, n, perr := strictParse(data)
 	served := kind == "ok" && res.Type != codec.UNKNOWN && res.Type != codec.ReqTooLarge && res.Type != codec.ReqWrongArgumentsNumber && res.Type < codec.Sentinel
+	if hugeCount {
+		tags = append(tags, "huge-count")
+		if grown := ms1.TotalAlloc - ms0.TotalAlloc; grown > 64<<20 {
+			fail("C12: a %d-byte input made the decoder allocate %d MiB (size hint taken from the client supplied count)", len(data), grown>>20)
+		}
+	}
 	if kind == "nilmsg" {
 		fail("C12: decoder returned neither a request nor an error (the handler dereferences it)")
 	}
